@@ -587,6 +587,11 @@ func C17(tier string) int {
 		run.HarnessErr = err
 		return run.Finish()
 	}
+	refused, err := c17RefusedContribution(run)
+	if err != nil {
+		run.HarnessErr = err
+		return run.Finish()
+	}
 	conc, err := c17Concurrent(run, time.Now().Add(budget))
 	if err != nil {
 		run.HarnessErr = err
@@ -601,6 +606,7 @@ func C17(tier string) int {
 		"real_clock":                    realTime,
 		"many_account_names":            many,
 		"prepare_that_cannot_succeed":   unprep,
+		"refused_contribution":          refused,
 		"states":                        r.States,
 		"transitions":                   r.Transitions,
 		"traces_validated_against_impl": r.Transitions,
@@ -629,6 +635,7 @@ func init() {
 			Choices    []int            `json:"choices"`
 			PerG       bool             `json:"goroutine_mode"`
 			ManyNames  int              `json:"many_names"`
+			Refused    bool             `json:"refused_contribution"`
 		}
 		if err := json.Unmarshal(raw, &rp); err != nil {
 			fmt.Println(err)
@@ -636,6 +643,21 @@ func init() {
 		}
 		if rp.Concurrent != nil {
 			return c17ReplayConcurrent(*rp.Concurrent, rp.Choices, rp.PerG)
+		}
+		if rp.Refused {
+			run := ev.NewRun("C17", "replay", "model_checking")
+			if _, err := c17RefusedContribution(run); err != nil {
+				fmt.Println(err)
+				return 2
+			}
+			for _, v := range run.Violations() {
+				fmt.Println("  VIOLATED:", v.What)
+			}
+			if len(run.Violations()) > 0 {
+				return 1
+			}
+			fmt.Println("  no violation on replay")
+			return 0
 		}
 		if rp.ManyNames > 0 {
 			run := ev.NewRun("C17", "replay", "model_checking")
